@@ -610,7 +610,7 @@ func runHistory(c *evid.Case, rng *rand.Rand, p histParams) *histResult {
 		return res
 	}
 
-	readErrLeft := 0
+	readErrLeft, writeErrLeft := 0, 0
 	// pending = lifecycle event whose handling crashed: the node replays the block after restart
 	type pend struct {
 		op string
@@ -680,12 +680,12 @@ func runHistory(c *evid.Case, rng *rand.Rand, p histParams) *histResult {
 		if sh.liq || !sh.inNode {
 			wSignA, wSignB = 6, 4
 		}
-		if readErrLeft > 0 {
+		if readErrLeft > 0 || writeErrLeft > 0 {
 			wSignA, wSignB = 120, 80
 		}
-		wCrash, wReadErr, wDelete, wBlank := 0, 0, 0, 0
+		wCrash, wReadErr, wDelete, wBlank, wWriteErr := 0, 0, 0, 0, 0
 		if p.randomFaults {
-			wCrash, wReadErr, wDelete = 7, 3, 2
+			wCrash, wReadErr, wDelete, wWriteErr = 7, 3, 2, 3
 			if blankFault {
 				wBlank = 3
 			}
@@ -693,7 +693,7 @@ func runHistory(c *evid.Case, rng *rand.Rand, p histParams) *histResult {
 				wDelete, wBlank = 0, 0
 			}
 		}
-		op := pickW(rng, []int{wSignA, wSignB, 20, wAdd, wRemove, wLiq, wReact, 6, wCrash, wReadErr, wDelete, wBlank})
+		op := pickW(rng, []int{wSignA, wSignB, 20, wAdd, wRemove, wLiq, wReact, 6, wCrash, wReadErr, wDelete, wBlank, wWriteErr})
 		var crashed bool
 		var opName string
 		switch op {
@@ -777,10 +777,36 @@ func runHistory(c *evid.Case, rng *rand.Rand, p histParams) *histResult {
 			c.Count("op_blank_record", 1)
 			r.rec("blank-record", sh.idx, []string{"att", "prop", "both"}[which], "")
 			r.life(sh.idx, "record-blanked")
+		case 12:
+			// the WRITE of the protection record fails (disk full, IO error): the signature must not be released, and the
+			// history goes on in the same process with conflicting requests
+			w.fdb.mu.Lock()
+			switch rng.Intn(3) {
+			case 0:
+				w.fdb.writeErrAtt = true
+			case 1:
+				w.fdb.writeErrPro = true
+			default:
+				w.fdb.writeErrAtt, w.fdb.writeErrPro = true, true
+			}
+			arg := fmt.Sprintf("att=%v prop=%v", w.fdb.writeErrAtt, w.fdb.writeErrPro)
+			w.fdb.mu.Unlock()
+			writeErrLeft = 1 + rng.Intn(3)
+			c.Count("op_write_error_on", 1)
+			r.rec("write-error-on", -1, arg, "")
 		}
 		if crashed {
 			if !handleCrash(opName, sh) {
 				break
+			}
+		}
+		if writeErrLeft > 0 && op != 12 {
+			writeErrLeft--
+			if writeErrLeft == 0 {
+				w.fdb.mu.Lock()
+				w.fdb.writeErrAtt, w.fdb.writeErrPro = false, false
+				w.fdb.mu.Unlock()
+				r.rec("write-error-off", -1, "", "")
 			}
 		}
 		if readErrLeft > 0 && op != 9 {
